@@ -24,19 +24,20 @@ import (
 // Server.Close) thereby meets Connect requests in flight, inbound peer connections and the
 // 30 s bind timers. Only order-insensitive oracles apply.
 type TStorm struct {
-	Seed         uint64 `json:"seed"`
-	NClients     int    `json:"n_clients"`
-	Rounds       int    `json:"rounds"`
-	MaxLifeS     int    `json:"max_life_s"`
-	PermTimeoutS int    `json:"perm_timeout_s"`
-	CloseAtRound int    `json:"close_at_round"`     // -1: only at the end
-	DialDelayMs  int    `json:"dial_delay_ms"`      // the server's outbound dials (Connect) take this long
-	DropCtrl     bool   `json:"drop_ctrl"`          // clients sometimes close their control connection and come back
-	ListenErrors bool   `json:"listen_errors"`      // relay listeners sometimes fail in Accept
-	AcceptSpin   int    `json:"accept_spin"`        // the listener's Accept yields this often before it returns a connection
-	Dialers      int    `json:"dialers"`            // goroutines that open a fresh control connection every round (also while Server.Close runs)
-	LibAuth      bool   `json:"lib_auth,omitempty"` // the server authenticates with the library's LongTermTURNRESTAuthHandler
-	TCPStorm     bool   `json:"tcp_storm"`          // format marker
+	Seed          uint64 `json:"seed"`
+	NClients      int    `json:"n_clients"`
+	Rounds        int    `json:"rounds"`
+	MaxLifeS      int    `json:"max_life_s"`
+	PermTimeoutS  int    `json:"perm_timeout_s"`
+	CloseAtRound  int    `json:"close_at_round"`            // -1: only at the end
+	DialDelayMs   int    `json:"dial_delay_ms"`             // the server's outbound dials (Connect) take this long
+	DropCtrl      bool   `json:"drop_ctrl"`                 // clients sometimes close their control connection and come back
+	ListenErrors  bool   `json:"listen_errors"`             // relay listeners sometimes fail in Accept
+	AcceptSpin    int    `json:"accept_spin"`               // the listener's Accept yields this often before it returns a connection
+	Dialers       int    `json:"dialers"`                   // goroutines that open a fresh control connection every round (also while Server.Close runs)
+	SlowCreatedMs int    `json:"slow_created_ms,omitempty"` // OnAllocationCreated takes this long
+	LibAuth       bool   `json:"lib_auth,omitempty"`        // the server authenticates with the library's LongTermTURNRESTAuthHandler
+	TCPStorm      bool   `json:"tcp_storm"`                 // format marker
 }
 
 type tStormClient struct {
@@ -80,7 +81,7 @@ func runTStorm(t *testing.T, s *TStorm) (res stormResult) {
 }
 
 func runTStormInner(s *TStorm) (res stormResult) { //nolint:cyclop,gocyclo,maintidx
-	cfg := TConfig{AllocLifetimeS: 30, PermTimeoutS: s.PermTimeoutS, Deny: []int{3}, LibAuth: s.LibAuth}
+	cfg := TConfig{AllocLifetimeS: 30, PermTimeoutS: s.PermTimeoutS, Deny: []int{3}, LibAuth: s.LibAuth, SlowCreatedMs: s.SlowCreatedMs}
 	w, err := newTWorld(cfg) // no clients yet: the actors dial themselves
 	if err == nil && os.Getenv("VERIF_STORM_LOGFILE") != "" {
 		w.log.Keep = 1000000
@@ -426,6 +427,7 @@ func genTStorm(rt *rapid.T) *TStorm {
 	s.Dialers = rapid.SampledFrom([]int{0, 1, 4, 8}).Draw(rt, "dialers")
 	s.AcceptSpin = rapid.SampledFrom([]int{0, 0, 50, 400, 2000}).Draw(rt, "acceptSpin")
 	s.LibAuth = rapid.Bool().Draw(rt, "libAuth")
+	s.SlowCreatedMs = rapid.SampledFrom([]int{0, 0, 300, 1500, 4000}).Draw(rt, "slowCreatedMs")
 	s.ListenErrors = rapid.Bool().Draw(rt, "listenErrors")
 
 	return s
